@@ -170,3 +170,35 @@ chk("C19", "HIST", "model_checking",
     "against the real library; every answer must equal that of a fresh object replaying only that object's own history; ASan and LeakSanitizer clean; shared reference counts restored.",
     "Operation alphabets of 2-5 operations per kind; LeakSanitizer at process exit as leak oracle.",
     "explicit-state exploration of API histories on the implementation with a fresh-object reference", "3/C19")
+
+# families added after the seeded-change rounds (DESIGN.md 10.5); appended to the level text of the check
+EXTRA = {
+    "C01": "Added: byte-by-byte listing-size sweeps across 8 KiB / 64 KiB, neighbouring files made of repeating block units, 'fragment block in flight' sweep "
+           "(tails overflowing a fragment block followed by zero-tail / sparse files), files larger than 4 GiB made of holes, 1 MiB blocks.",
+    "C02": "Added: scheduling points after mutex unlock, compressible-tail overflow scenarios, the serial reference must be the same for backlog 1 / given / unbounded, "
+           "per-file DONT_COMPRESS scenarios, a CLI -j/-Q grid input with a sort file (dont_compress, dont_fragment), TSan run of gensquashfs.",
+    "C04": "Added: follower entries behind every single-entry case (a miscounted record shows at the NEXT header), sparse maps at the region counts where the 1.0 map "
+           "crosses one and two records, xattr value lengths across the PAX record-length digit boundaries, ustar prefix lengths 1..155.",
+    "C05": "Added: the libsquashfs reader API driven directly on every variant (all single operations and pairs, engines/hist/reader_hist.c), a base image with a "
+           "directory index, ASan poisoning of the metadata reader's buffer tail (in-tree hook).",
+    "C06": "Added: every listing also with all inodes in their extended representation (+xattr).",
+    "C07": "Added: all sequences of <=3 (thorough 4) PAX keys in one header, all sequences of <=3 meta records (L, K, x, g) in front of each entry kind, PAX value "
+           "alphabets with a correct length prefix.",
+    "C08": "Added: sort-file flag configurations, three flushed fragment blocks followed by every sequence of <=2 (thorough 3) look-ups.",
+    "C09": "Added: scheduling points before cond_wait and at API call boundaries, positive and negative failure status.",
+    "C10": "Added: damaged fragment index/offset images, an image with a >64 KiB inode table, a DOT_ENTRIES directory reader, the low-level xattr walk with interleaved "
+           "descriptor look-ups (must agree with read_all).",
+    "C11": "Added: '.' and '..' take part in the permutation (permd): all (k+2)! orders per directory up to 720 (quick) / 5040 (thorough), else all single-displacement orders; "
+           "a tree with UTF-8 / high-byte names.",
+    "C13": "Added: scenarios with on-disk fragment dedup, glob input, PAX/xattr/sparse tar input, an archive larger than the stream buffer with a member ending on the "
+           "buffer boundary, xattr dump.",
+    "C14": "Added: fragment x xattr x export table combinations for both packers, overwrite of a larger pre-existing image (-f), every entry template on its own (thorough).",
+    "C15": "Added: empty members (split at 0 / end / repeated offsets), truncation inside the second member of two-member streams, format detection with first members "
+           "named like each compressor magic.",
+    "C16": "Added: the full byte range in names and targets (every byte value first / last / middle / alone), device-number, mode and owner boundary sweeps.",
+    "C17": "Added: compressible tails (compressed bit of fragment blocks observable), all ordered pairs over a 64-bit boundary alphabet of priorities.",
+    "C19": "Added: an image whose inode references need more than 32 bits, further operation alphabets per reader kind (fragment + data block cached, path resolution, "
+           "low-level xattr walk).",
+}
+for _pid, _txt in EXTRA.items():
+    CHECKS[_pid]["level_claimed"]["text"] += " " + _txt
